@@ -5,7 +5,7 @@
    constraint kind), with the body level the complete result of SemanticTokensInFile, compared on every run. *)
 From Coq Require Import String List ZArith Bool Sorted Permutation.
 From HV Require Import Base.Sexp Base.SortSpec Base.Pos Model.Schema Model.Ast Model.BodyQueries Model.Origins Model.ValueTokens
-                       Proofs.BodyQueriesProofs Proofs.TokenPlaces Proofs.ValueTargetsProofs Proofs.ValueTokensProofs.
+                       Proofs.BodyQueriesProofs Proofs.TokenPlaces Proofs.ValueTargetsProofs Proofs.ValueTokensProofs Proofs.ValueTokensDisjoint.
 
 (* every token carries the modifiers of all enclosing blocks, outermost first, then its own *)
 Theorem C13_tokens_inherit_enclosing_modifiers : forall b bs mods,
@@ -62,3 +62,12 @@ Theorem C13_file_value_tokens_inside_values : forall funcs vals exprs,
   Forall (fun t => exists r e, lookup_sexpr exprs r = Some e /\ inside (vk_rng t) (se_rng e)) ts.
 Proof. exact file_value_tokens_inside_values. Qed.
 Print Assumptions C13_file_value_tokens_inside_values.
+
+(* The tokens of a value are pairwise disjoint, for every constraint and expression shape, at any depth.
+   [dj_s]: the parser keeps the parts of an expression apart (sibling expressions do not overlap, a key ends
+   before its value, a function name before its arguments, the steps of a traversal follow each other). *)
+Theorem C13_value_tokens_pairwise_disjoint : forall funcs vals fuel c e ts,
+  wf_s e -> dj_s e -> value_tokens funcs vals fuel c e = Some (Some ts) ->
+  ForallOrdPairs (fun x y => rdisj (vk_rng x) (vk_rng y)) ts.
+Proof. exact value_tokens_pairwise_disjoint. Qed.
+Print Assumptions C13_value_tokens_pairwise_disjoint.
